@@ -53,7 +53,7 @@ def drift(case, obs):
 
 
 def run(rep, tier, seed, selftest, st):
-    r = common.tlc("MC_Positions", MC[tier], workers=4, timeout=900, heap="4g", tag="C11-mc-positions")
+    r = common.tlc("MC_Positions", MC[tier], workers=4, timeout=900, heap="4g", tag="C11-mc-positions", env=mu.probe_fixes())
     log("[tlc] MC_Positions/%s: %d states generated, %d distinct, %d cases, %.1fs, %s" %
         (MC[tier], r.generated, r.distinct, len(r.cases), r.wall,
          "no invariant violated" if r.ok else "INVARIANT %s VIOLATED" % r.violated))
@@ -62,8 +62,13 @@ def run(rep, tier, seed, selftest, st):
     cases = r.cases
     if not cases:
         raise common.ToolError("TLC emitted no cells")
-    guard_ok, _ = mu.expect_violation("C11", "MC_Positions", GUARD[0], GUARD[1])
-    log("[tlc] %s: invariant %s %s (%s)" % (GUARD[0], GUARD[1], "violated as expected" if guard_ok else "NOT violated", GUARD[2]))
+    violated, rg = mu.expect_violation("C11", "MC_Positions", GUARD[0], GUARD[1])
+    if mu.fixed("PENNE_FIXED_LIKE_ELEMENT"):
+        guard_ok = rg.ok
+        log("[tlc] %s: invariant %s %s (the tree contains the fix: %s)" % (GUARD[0], GUARD[1], "holds" if guard_ok else "VIOLATED", GUARD[2]))
+    else:
+        guard_ok = violated
+        log("[tlc] %s: invariant %s %s (%s)" % (GUARD[0], GUARD[1], "violated as expected" if guard_ok else "NOT violated", GUARD[2]))
     cases_path = os.path.join(common.WORK, "C11-cell-cases.ndjson")
     obs_path = os.path.join(common.WORK, "C11-cell-obs.ndjson")
     common.write_ndjson(cases_path, cases)
